@@ -65,7 +65,10 @@ def acceptStep (a : AS) (ws : List String) : AS × List String :=
           -- the harness initialises a fresh stream client first (uv__stream_init re-opens the spare fd)
           let s1 := if k ∈ ["S", "T", "B"] then streamInit s true else s
           let (s', r) := uvAccept s1 c (int! e)
-          out a s s' r
+          let (a', o) := out a s s' r
+          let got := if r == 0 && s'.taken.length > s.taken.length then
+              match s'.taken.getLast? with | some (f, _) => s!" got={f.id}" | none => "" else ""
+          (a', o.map (· ++ got))
         else (a, ["bad-op"])
       | "recv" :: f :: fds =>
         let (s', r) := recv s (fds.map fd!) (if f = "-" then none else some (nat! f))
